@@ -6,6 +6,8 @@ from ..rules import printer
 def run(F, G, tier, seed):
     chk = Check("C03", tier, "other", seed)
     printer.run(chk, F, G)
+    printer.run_roles(chk, F)
+    printer.run_total(chk, F)
     return chk.finish(
         "Decides that the printer's parenthesisation is safe with respect to the parser for every (parent, position, "
         "child) triple of the operator fragment - by LR simulation on the automaton of the current grammar, not by "
